@@ -39,6 +39,9 @@ def spins(j):
 
 
 def run(repo, chk, tier):
+    from ..cacheown import check_persistent_state
+
+    check_persistent_state(repo, chk, ["tf_pwa/amp/", "tf_pwa/particle.py", "tf_pwa/breit_wigner.py"])
     chk.trusted_base[:] = ["AST->sympy translator sa/sym.py", "sympy ring normaliser", "checker's reverse-Bessel reference (c15_kernels.ref_poly)", "checker's Wigner reference (cross-checked against sympy)"]
     chk.info("not decided: the end-to-end assembly of the amplitude (einsum over helicities, sum over chains), the sign (-1)^J that the angle conventions induce, identical-particle symmetrisation")
     cg_matrix(repo, chk)
